@@ -90,13 +90,14 @@ func raceGroups(c *Ctx) []raceGroup {
 		{"cache-torn", 4},
 		{"hs-shared", 4}, {"hs-shared", p()},
 		{"hs-det", 2},
+		{"hs-sweep", 4}, {"hs-sweep", p()},
 		{"stream-dir", 4}, {"stream-dir", p()},
 		{"stream-secret", p()},
 		{keyedPlainGroup, 4},
 	}
 	if c.Thorough() {
 		for _, q := range procChoices {
-			gs = append(gs, raceGroup{"cache-lin", q}, raceGroup{"hs-shared", q}, raceGroup{"stream-dir", q},
+			gs = append(gs, raceGroup{"cache-lin", q}, raceGroup{"hs-shared", q}, raceGroup{"hs-sweep", q}, raceGroup{"stream-dir", q},
 				raceGroup{"cache-pairs:gc,renew;dump,renew;lookup,renew;bycmd,renew;lookupne,renew;snapshot,renew", q}, raceGroup{"cache-atomic", q})
 		}
 	}
@@ -179,7 +180,7 @@ func top(st []string, n int) string {
 }
 
 func raceDriver(c *Ctx) error {
-	c.Res.Rule = "workload groups in child processes of the -race harness (GOMAXPROCS 1/2/4/8 by seed): (cache-lin) 2-4 goroutines x 3-6 random SessionCache operations (Store, Lookup, LookupNonExpired, LookupByCommand, MapCommand, Invalidate, InvalidateExpired, Clear, Size, Snapshot, DebugDump) on 3 overlapping session ids with 6 shared entry objects (never / past / future expiry) while other goroutines RenewLease/IsExpired/Expiration the same entries, injected Gosched; each concurrent history must have a linearization (found by exhaustive search respecting real-time order) which the Lean cache object replays with identical results, final Size/Snapshot/DebugDump/Lookups included; (cache-atomic) the same check on small targeted histories: Invalidate / InvalidateExpired / LookupNonExpired / Clear against a concurrent Store+MapCommand of the same id with an observer; dumped expirations must parse and lie within the run's window (torn reads); (cache-pairs) targeted method pairs hammered from 4 goroutines; (cache-invalidate-wins) lookups that start after Invalidate returned must miss; (cache-dump-writers) thousands of DebugDump calls against concurrent Store/MapCommand/Invalidate/LookupNonExpired/InvalidateExpired with a progress watchdog (a dump that takes the cache lock twice wedges the cache as soon as a writer arrives in between); (hs-shared) many simultaneous client.ConnectAndAuthenticateWithConfig calls sharing ONE *SecurityConfig and ONE SessionCache against one server.Server over loopback TCP, fresh, resuming one shared session, and mixed, with maintenance sweeps/dumps of both caches running, every connection must authenticate, be encrypted and echo a message; (hs-det) the configuration-cell schedules and the resume-vs-Invalidate schedule replayed deterministically on real Authenticators; (stream-dir / stream-secret) one goroutine sends (SendMessage, SendPartialMessage, WriteMessage/EndMessage/StartMessage, PutSecret) while another receives (ReceiveFrameWithEnd, ReceiveFrame, ReceiveCompleteMessage, StartMessageRead/ReadMessageBytes/EndMessageRead, GetSecret) on one established stream (keyed or plaintext, sizes around the 4 KiB flush threshold, misuse errors), per-direction results compared with the model under a seed-chosen merge order and end-to-end with the peer; every data-race report of the detector whose stack enters the library is a violation; distinct by op sequence; non-trivial = at least 2 goroutines touch one session id / one stream"
+	c.Res.Rule = "workload groups in child processes of the -race harness (GOMAXPROCS 1/2/4/8 by seed): (cache-lin) 2-4 goroutines x 3-6 random SessionCache operations (Store, Lookup, LookupNonExpired, LookupByCommand, MapCommand, Invalidate, InvalidateExpired, Clear, Size, Snapshot, DebugDump) on 3 overlapping session ids with 6 shared entry objects (never / past / future expiry) while other goroutines RenewLease/IsExpired/Expiration the same entries, injected Gosched; each concurrent history must have a linearization (found by exhaustive search respecting real-time order) which the Lean cache object replays with identical results, final Size/Snapshot/DebugDump/Lookups included; (cache-atomic) the same check on small targeted histories: Invalidate / InvalidateExpired / LookupNonExpired / Clear against a concurrent Store+MapCommand of the same id with an observer; dumped expirations must parse and lie within the run's window (torn reads); (cache-pairs) targeted method pairs hammered from 4 goroutines; (cache-invalidate-wins) lookups that start after Invalidate returned must miss; (cache-dump-writers) thousands of DebugDump calls against concurrent Store/MapCommand/Invalidate/LookupNonExpired/InvalidateExpired with a progress watchdog (a dump that takes the cache lock twice wedges the cache as soon as a writer arrives in between); (hs-shared) many simultaneous client.ConnectAndAuthenticateWithConfig calls sharing ONE *SecurityConfig and ONE SessionCache against one server.Server over loopback TCP, fresh, resuming one shared session, and mixed, with maintenance sweeps/dumps of both caches running, every connection must authenticate, be encrypted and echo a message; (hs-sweep) goroutines x full client handshakes, each under its own (tag, server address) with 1-150 commands declared by the server, sharing ONE SessionCache while other goroutines loop InvalidateExpired / InvalidateExpiredSessions / DebugDump / Snapshot and others mint identifiers with GenerateSessionID(GetNextSessionCounter()), some completed sessions invalidated afterwards: every identifier minted is unique and both ends name the same one, every completed handshake is routable by each declared command (unless a later Invalidate named it) and resumable afterwards with its own key and identity; (hs-det) the configuration-cell schedules and the resume-vs-Invalidate schedule replayed deterministically on real Authenticators; (stream-dir / stream-secret) one goroutine sends (SendMessage, SendPartialMessage, WriteMessage/EndMessage/StartMessage, PutSecret) while another receives (ReceiveFrameWithEnd, ReceiveFrame, ReceiveCompleteMessage, StartMessageRead/ReadMessageBytes/EndMessageRead, GetSecret) on one established stream (keyed or plaintext, sizes around the 4 KiB flush threshold, misuse errors), per-direction results compared with the model under a seed-chosen merge order and end-to-end with the peer; every data-race report of the detector whose stack enters the library is a violation; distinct by op sequence; non-trivial = at least 2 goroutines touch one session id / one stream"
 	exe, err := os.Executable()
 	if err != nil {
 		return err
@@ -358,6 +359,8 @@ func raceWorker(c *Ctx, group string) error {
 			wlHsShared(c, out)
 		case "hs-det":
 			wlHsDet(c, out)
+		case "hs-sweep":
+			wlHsSweep(c, out)
 		case "stream-dir":
 			wlStreamDir(c, out, false)
 		case "stream-secret":
